@@ -193,6 +193,60 @@ def property_failure(impl, text, k):
     return None
 
 
+# ---------------------------------------------------------------------------
+# known defect mechanisms: a failure is attributed to one only if neutralising exactly that
+# construct in the input makes the property hold again; everything else keeps a generic key
+# ---------------------------------------------------------------------------
+
+KEY_MINUS = "formatter:binary-minus-then-unary-minus-rendered-as-double-dash"
+KEY_DOCBLANK = "formatter:inline-doc-trailing-blanks-widen-comment-column"
+KEY_SELFCHECK = "formatter-selfcheck:compares-only-a-prefix"
+
+
+def neutralise_minus(impl, text):
+    """turn the unary '-' of every adjacent pair of '-' tokens into a unary '+' (`a - -1` -> `a - +1`)"""
+    toks, errs = impl.tokenizer.tokenize(text, "f")
+    if errs:
+        return text
+    lines = text.splitlines(True)
+    prev = None
+    edits = []
+    for t in toks:
+        if t.symbol in ("Indent", "Dedent"):
+            continue
+        if prev is not None and prev.symbol == '"-"' and t.symbol == '"-"' and prev.source_location.start.line == t.source_location.start.line:
+            edits.append((t.source_location.start.line, t.source_location.start.column))
+            prev = None          # the replaced token is now a '+'
+            continue
+        prev = t
+    for ln, col in edits:
+        l = lines[ln - 1]
+        lines[ln - 1] = l[:col - 1] + "+" + l[col:]
+    return "".join(lines)
+
+
+def neutralise_blanks(text):
+    """remove trailing blanks of every line (inline documentation / comments keep their words)"""
+    nl = "\r\n" if "\r\n" in text else "\n"
+    return nl.join(l.rstrip() for l in text.split(nl))
+
+
+def attribute(impl, text, k):
+    """-> (set of known mechanism keys that explain the failure, residual failure message or None)"""
+    keys = set()
+    both = neutralise_blanks(neutralise_minus(impl, text))
+    residual = property_failure(impl, both, k) if impl.parse(both) is not None else "neutralised text does not parse"
+    if residual is not None:
+        return keys, residual
+    if property_failure(impl, neutralise_blanks(text), k) is not None:
+        keys.add(KEY_MINUS)
+    if property_failure(impl, neutralise_minus(impl, text), k) is not None:
+        keys.add(KEY_DOCBLANK)
+    if not keys:      # each neutralisation alone cures it: both constructs were needed; name both
+        keys = {KEY_MINUS, KEY_DOCBLANK}
+    return keys, None
+
+
 def classify(msg):
     for needle, key in (("raised on its own", "formatter-raises"), ("raised", "formatter-raises"), ("not token-equivalent", "formatter-changes-tokens"),
                         ("does not parse", "formatter-output-unparseable"), ("idempotent", "formatter-not-idempotent"),
@@ -432,8 +486,6 @@ def run(ctx):
     replay = {"sanity_check_format_result('a\\nb\\n', 'a\\n')": impl.sanity("a\nb\n", "a\n"),
               "sanity_check_format_result('a\\n', 'a\\nb\\n')": impl.sanity("a\n", "a\nb\n")}
     ctx.extra["refuted_witnesses_replayed_on_implementation"] = replay
-    ctx.note("candidate finding (not a violation of this check): sanity_check_format_result accepts extra trailing tokens (%s) and raises on a shorter token list (%s)"
-             % (replay["sanity_check_format_result('a\\nb\\n', 'a\\n')"], replay["sanity_check_format_result('a\\n', 'a\\nb\\n')"]))
 
     # ---- inputs ---------------------------------------------------------------------------
     corpus = lg.corpus_files(fw.REPO)
@@ -457,6 +509,12 @@ def run(ctx):
         for fn in sorted(os.listdir(cdir)):
             if fn.endswith(".json"):
                 texts.insert(0, ("corpus-replay", json.load(open(os.path.join(cdir, fn)))["text"]))
+    if not getattr(ctx, "replay_path", None):
+        for shape, text in lg.FmtGen.sweep():
+            texts.append((shape, text))
+        fg = lg.FmtGen(ctx.rng)
+        for _ in range(2500 if ctx.thorough() else 420):
+            texts.append(("generated-module", fg.module()))
     mut = Mut(ctx.rng, impl)
     pool = [x for x in texts]
     n_mut = 1600 if ctx.thorough() else 260
@@ -486,7 +544,10 @@ def run(ctx):
         if tree is None:
             ctx.count("unparseable:" + shape)
             continue
-        widths = widths_all if (shape != "mutant" or ctx.thorough()) else ctx.rng.sample(widths_all, 3)
+        if shape in ("mutant", "generated-module", "sweep-operators", "sweep-row-tails") and not ctx.thorough():
+            widths = ctx.rng.sample(widths_all, 1 if shape.startswith("sweep") else 3)
+        else:
+            widths = widths_all
         for k in widths:
             ctx.count("shape:" + shape)
             ctx.count("indent:%d" % k)
@@ -555,9 +616,33 @@ def run(ctx):
             n_sdis += 1
             disagreements.append(c)
     n_fmt = sum(1 for c in cases if c["kind"] == "format")
-    ctx.obligation("translation validation: %d formatter outputs are fmt_equiv to their inputs (verified checker on model tokens)" % n_fmt, n_noneq == 0)
-    ctx.obligation("no exception, output parses, formatting is idempotent on %d (text, indent) pairs" % n_fmt,
-                   not [f for f in failures if "equivalent" not in f[2]])
+    # attribute every failing (text, indent) to a listed mechanism, or keep it as an unexplained failure
+    by_key = {}           # key -> [(text, k, why)]
+    unexplained = []      # (text, k, why)
+    analysed = {}
+    t_attr = time.time()
+    for text, k, why in sorted(failures, key=lambda f: len(f[0])):
+        if (text, k) in analysed:
+            continue
+        analysed[(text, k)] = True
+        if time.time() - t_attr > (600 if ctx.thorough() else 100):
+            unexplained.append((text, k, why + " (not analysed: time budget)"))
+            continue
+        confirmed = property_failure(impl, text, k)
+        if confirmed is None:
+            unexplained.append((text, k, "MODEL-ONLY " + why))
+            continue
+        keys, residual = attribute(impl, text, k)
+        for key in keys:
+            by_key.setdefault(key, []).append((text, k, confirmed))
+        if residual is not None:
+            unexplained.append((text, k, residual))
+    ctx.extra["failures_attributed"] = {key: len(v) for key, v in by_key.items()}
+    ctx.extra["failures_unexplained"] = len(unexplained)
+    n_attr = len({(t_, k_) for v in by_key.values() for t_, k_, _ in v})
+    ctx.obligation("translation validation: %d formatter outputs are fmt_equiv to their inputs (verified checker on model tokens), the output parses, "
+                   "formatting it again is the identity, no exception; %d further (text, indent) pairs fail and are attributed to the mechanisms %s"
+                   % (n_fmt - n_attr - len(unexplained), n_attr, sorted(by_key)), not unexplained)
     ctx.obligation("correspondence: model of sanity_check_format_result = Python on %d pairs" % len(cases), n_sdis == 0)
 
     # a sample inside Coq (extraction is a speed-up, not a premise)
@@ -584,26 +669,48 @@ def run(ctx):
         ctx.violation("harness-extraction", "extracted OCaml and vm_compute disagree", dict(kind="harness", model_outputs=bad[0][1][:2000]), found_input=False)
 
     # ---- deciding ------------------------------------------------------------------------------------
+    replay_txt = "format_emb.format_emboss_parse_tree(parser.parse_module(tokenizer.tokenize(text,'f')[0]).parse_tree, Config(indent_width=indent)); format again; sanity_check_format_result"
+    for key in sorted(by_key):
+        text, k, msg = by_key[key][0]          # the smallest attributed input
+        if len(text) > 160:
+            other = neutralise_blanks if key == KEY_MINUS else (lambda s_: neutralise_minus(impl, s_))
+            text = shrink_lines(text, lambda s_: impl.parse(s_) is not None and property_failure(impl, other(s_), k) is not None, seconds=8)
+            msg = property_failure(impl, text, k) or msg
+        ctx.violation(key, "C11 fails for indent %d on %r: %s" % (k, text[:160], msg),
+                      dict(kind="text", text=text, indent=k, failure=msg, occurrences_this_run=len(by_key[key]), replay=replay_txt),
+                      found_input=True)
     reported = 0
-    seen_keys = set()
-    for text, k, why in failures:
-        key = classify(why)
-        if key in seen_keys or reported >= 4:
-            continue
-        seen_keys.add(key)
-        confirmed = property_failure(impl, text, k)
-        if confirmed is None:
-            ctx.violation("formatter-validation", "model-side validation failed (%s) but the property holds on the implementation for indent %d" % (why, k),
+    seen_generic = set()
+    for text, k, why in unexplained:
+        if reported >= 4:
+            break
+        if why.startswith("MODEL-ONLY "):
+            if "model-only" in seen_generic:
+                continue
+            seen_generic.add("model-only")
+            ctx.violation("formatter-validation", "model-side validation failed (%s) but the property holds on the implementation for indent %d" % (why[11:], k),
                           dict(kind="text", text=text, indent=k, correspondence="model tokenizer/criterion vs implementation", failure=why), found_input=False)
             reported += 1
             continue
-        small_text = shrink_lines(text, lambda s: (impl.parse(s) is not None) and property_failure(impl, s, k) is not None)
-        msg = property_failure(impl, small_text, k) or confirmed
+        g = classify(why)
+        if g in seen_generic:
+            continue
+        seen_generic.add(g)
+        neut = neutralise_blanks(neutralise_minus(impl, text))
+        base = neut if (impl.parse(neut) is not None and property_failure(impl, neut, k) is not None) else text
+        small_text = shrink_lines(base, lambda s_: (impl.parse(s_) is not None) and property_failure(impl, s_, k) is not None)
+        msg = property_failure(impl, small_text, k) or why
         ctx.violation("formatter:" + classify(msg), "C11 fails for indent %d on %r...: %s" % (k, small_text[:120], msg),
-                      dict(kind="text", text=small_text, indent=k, failure=msg,
-                           replay="format_emb.format_emboss_parse_tree(parser.parse_module(tokenizer.tokenize(text,'f')[0]).parse_tree, Config(indent_width=indent))"),
-                      found_input=True)
+                      dict(kind="text", text=small_text, indent=k, failure=msg, replay=replay_txt), found_input=True)
         reported += 1
+    # the refuted self-check theorems replayed on the implementation
+    r_extra, r_short = impl.sanity("a\nb\n", "a\n"), impl.sanity("a\n", "a\nb\n")
+    if r_extra == "ok" or r_short == "indexerror":
+        ctx.violation(KEY_SELFCHECK, "sanity_check_format_result('a\\nb\\n', 'a\\n') -> %s (extra trailing tokens accepted); "
+                      "sanity_check_format_result('a\\n', 'a\\nb\\n') -> %s (shorter token list)" % (r_extra, r_short),
+                      dict(kind="pair", formatted="a\nb\n", original="a\n",
+                           theorems=["sanity_sound_refuted", "sanity_raises_refuted", "inst_sanity_accepts_extra_tokens", "inst_sanity_raises"],
+                           replay="format_emb.sanity_check_format_result(formatted, original) and with the arguments swapped"), found_input=True)
     if disagreements and reported == 0:
         c = disagreements[0]
         ctx.violation("formatter-selfcheck-model", "model of sanity_check_format_result says %r, Python says %r" % (c["model_sanity"], c["py_sanity"]),
